@@ -107,7 +107,12 @@ func (n *Node) gate(ctx context.Context, what string) error {
 }
 
 func (n *Node) SearchPartitions(req *pb.SearchPartitionsRequest, stream pb.Search_SearchPartitionsServer) error {
-	if err := n.gate(stream.Context(), "SearchPartitions"); err != nil {
+	what := "SearchPartitions"
+	for _, pidb := range req.GetPartitionIds() {
+		pid, _ := uuid.FromBytes(pidb)
+		what += ":" + pid.String()
+	}
+	if err := n.gate(stream.Context(), what); err != nil {
 		return err
 	}
 	for _, pidb := range req.GetPartitionIds() {
